@@ -16,6 +16,6 @@ echo "$OUT" | grep -E "^VIOLATION|^  key=|MACHINERY" | cut -c1-260 | head -8
 echo "exit=$RC"
 cd /repo && git checkout -q -- . && git clean -qfd rscel rscel-macro extensions wasm python 2>/dev/null
 [ -z "$(git status --short)" ] || { echo "WARNING: /repo is not clean after reverting the seeded change:"; git status --short; }
-# the binaries were built from the changed tree: rebuild them from the restored one
-(cd /verif && ./check --build >/dev/null 2>&1)
+# NOTE: the binaries in /verif/target were built from the CHANGED tree; ./check rebuilds them before
+# every run, but an ad-hoc `target/checked/rscel-mc EVAL` needs `./check --build` first
 exit $RC
